@@ -15,11 +15,13 @@ PID = "C14"
 IMPORTS = "From OV Require Import Model.CFun."
 MODEL_VO = ["Model/CFun.vo", "Proofs/CFunCert.vo"]
 RULE = ("certificates: every public function (31 one-argument + pow/powf/log/polar) at structured dyadic points (all four quadrants, "
-        "both axes, 2^-10 / 2^-20-adjacent to the branch points 0, +-1, +-i, both sides of every cut at distances 2^-10, 2^-20, 2^-30, 2^-9 <= |z| <= 10, |w| <= 3), one "
+        "both axes, 2^-10 / 2^-20-adjacent to the branch points 0, +-1, +-i, both sides of every cut at distances 2^-10, 2^-20, 2^-30, 33/32768 <= |z| <= 10 (the smallest modulus of the structured set is 33/32768 = 1.007e-3, the lower end of the property's range 1e-3 rounded up to a dyadic), |w| <= 3), one "
         "kernel-checked Interval certificate per component of the implementation's answer against the R-model "
         "(tol 1e-9*max(1,|v|)); points exactly on a cut of the function are excluded from value comparison. "
         "search cases: cf.all / cf.seq / cf.powid / cf.polar* lines on the structured set plus seeded random dyadic points, "
-        "compared with mpmath at 50 digits and with each other (round trips, reciprocals, Pythagorean, principal ranges); the "
+        "compared with mpmath at 50 digits and with each other (round trips, reciprocals, Pythagorean, principal ranges); a NaN or infinite "
+        "value is a failure at every point of the domain, points on a cut included (only the poles of atan/acot at +-i and atanh/acoth at +-1 "
+        "have no finite value), and the executor's helper values -z (exact) and 1/z (16 ulp of mpmath) of the cf.all stream are judged too; the "
         "structured set also holds z = +-1, +-i and both ends of the range of moduli (|z| = 10, |z| = 33/32768) on the axes and in "
         "every quadrant (certified too); search-only special-structure families (special_cases): |z| = 1 off the axes; the zeros and "
         "poles fl(k pi/2), k = +-1..+-6, of the direct functions on both axes, exactly and displaced by 2^-20 / 2^-30 along and by "
@@ -49,7 +51,7 @@ MANIFEST = dict(
           "Re asin z in [-pi/2,pi/2], Re acos z in [0,pi], asin z+acos z=pi/2; ln(exp z)=z on the principal strip, b^(log_b z)=z. "
           "Tie: kernel-checked Interval certificates -- at every structured dyadic point (all quadrants, both axes, 2^-10/2^-20 next "
           "to 0,+-1,+-i, both sides of every cut at distances 2^-10, 2^-20, 2^-30) each component returned by the Rust code is proved "
-          "to lie within 1e-9*max(1,|v|) of the model's real value (about 1 300 certificates quick, 10 500 thorough; the constant "
+          "to lie within 1e-9*max(1,|v|) of the model's real value (about 1 400 certificates quick -- 1 409 to 1 420 in the recorded runs, the count is written to the evidence --, 10 500 thorough; the constant "
           "PI_2 is certified against PI/2). Search: mpmath at 50 digits and the identities themselves on the structured set plus "
           "seeded random points (8 800 cases quick, 53 000 thorough), including special-structure families: z = +-1, +-i and unit modulus "
           "off the axes, both ends of the range of moduli, the zeros and poles k pi/2 of the direct functions on both axes (exactly and "
@@ -226,6 +228,9 @@ def _close(a, ref, rel=1e-9):
 
 RANGE_SLACK = 1e-12
 
+def _finite(a):
+    return (math.isfinite(a.real) and math.isfinite(a.imag)) if isinstance(a, complex) else math.isfinite(a)
+
 def oracle_all(z, items):
     vals = {}
     cur = None
@@ -240,6 +245,11 @@ def oracle_all(z, items):
         if v is None: return "no value for %s" % name
         V[name] = v[0] if name in REAL_VALUED else complex(v[0], v[1])
     _cov["functions_searched"] = len(UNARY) + 4
+    # every value is finite on the non-overflowing domain, on the cuts as well (there only the SIDE the code takes is free);
+    # the poles of the inverse functions (atan/acot at +-i, atanh/acoth at +-1) and z = 0 are the only points with no finite value
+    for name in UNARY:
+        if not _finite(V[name]) and not (inverse_singular(name, z) or (z[0] == 0 and z[1] == 0)):
+            return "%s(%r) = %r is not finite" % (name, z, V[name])
     for name in UNARY:
         if on_cut(name, z):
             _cov["on_cut_skipped"] = _cov.get("on_cut_skipped", 0) + 1
@@ -250,10 +260,10 @@ def oracle_all(z, items):
             return "%s(%r) = %r but the function value is %s (mpmath, 50 digits)" % (name, z, V[name], mp.nstr(ref, 17))
     # principal branches (also on the cuts).  For a binary64 v, v in (-pi, pi] holds exactly when
     # -fl(pi) <= v <= fl(pi), because fl(pi) < pi < succ(fl(pi)): no slack for ln and arg.
-    if V["sqrt"].real < 0: return "Re sqrt(%r) = %r < 0" % (z, V["sqrt"].real)
+    if not (V["sqrt"].real >= 0): return "Re sqrt(%r) = %r < 0" % (z, V["sqrt"].real)
     if not (-PI <= V["ln"].imag <= PI): return "Im ln(%r) = %r outside (-pi, pi]" % (z, V["ln"].imag)
     if not (-PI <= V["arg"] <= PI): return "arg(%r) = %r outside (-pi, pi]" % (z, V["arg"])
-    if abs(V["asin"].real) > PI / 2 + RANGE_SLACK: return "Re asin(%r) = %r outside [-pi/2, pi/2]" % (z, V["asin"].real)
+    if not (abs(V["asin"].real) <= PI / 2 + RANGE_SLACK): return "Re asin(%r) = %r outside [-pi/2, pi/2]" % (z, V["asin"].real)
     if not (-RANGE_SLACK <= V["acos"].real <= PI + RANGE_SLACK): return "Re acos(%r) = %r outside [0, pi]" % (z, V["acos"].real)
     # reciprocals
     for a, b in RECIPROCALS:
@@ -262,12 +272,23 @@ def oracle_all(z, items):
         if not (abs(p - 1) <= 1e-9): return "%s(z)*%s(z) = %r, not 1, at z=%r" % (a, b, p, z)
     # Pythagorean identities (relative to the size of the cancelling terms)
     s, c = V["sin"], V["cos"]
-    if abs(s * s + c * c - 1) > 1e-9 * max(1, abs(s) ** 2 + abs(c) ** 2): return "sin^2+cos^2 = %r at z=%r" % (s * s + c * c, z)
+    if not (abs(s * s + c * c - 1) <= 1e-9 * max(1, abs(s) ** 2 + abs(c) ** 2)): return "sin^2+cos^2 = %r at z=%r" % (s * s + c * c, z)
     s, c = V["sinh"], V["cosh"]
-    if abs(c * c - s * s - 1) > 1e-9 * max(1, abs(s) ** 2 + abs(c) ** 2): return "cosh^2-sinh^2 = %r at z=%r" % (c * c - s * s, z)
+    if not (abs(c * c - s * s - 1) <= 1e-9 * max(1, abs(s) ** 2 + abs(c) ** 2)): return "cosh^2-sinh^2 = %r at z=%r" % (c * c - s * s, z)
     # sqrt(z)^2 = z, |z|^2, conj
     q = V["sqrt"]
-    if abs(q * q - complex(*z)) > 1e-9 * max(1, abs(complex(*z))): return "sqrt(z)^2 = %r at z=%r" % (q * q, z)
+    if not (abs(q * q - complex(*z)) <= 1e-9 * max(1, abs(complex(*z)))): return "sqrt(z)^2 = %r at z=%r" % (q * q, z)
+    # the two helper values of the stream (the code's own negation and reciprocal, used by the identity search): -z exactly,
+    # 1/z to within the rounding of one complex division
+    for name in ("neg", "inv"):
+        v = vals.get(name)
+        if v is None or len(v) != 2: return "no value for %s" % name
+    ng = complex(*vals["neg"])
+    if not (ng.real == -z[0] and ng.imag == -z[1]): return "-z = %r at z=%r: negation is exact" % (ng, z)
+    if not (z[0] == 0 and z[1] == 0):
+        iv = complex(*vals["inv"]); ref = 1 / zz
+        if not _finite(iv) or not (abs(mp.mpc(iv.real, iv.imag) - ref) <= 16 * 2.0 ** -52 * abs(ref)):
+            return "1/z = %r at z=%r but the quotient is %s (mpmath, 50 digits)" % (iv, z, mp.nstr(ref, 17))
     # reduction to the real functions on the real axis
     if z[1] == 0:
         x = mp.mpf(z[0])
@@ -291,15 +312,15 @@ def oracle(case, items):
         z = complex(*m["z"])
         w = complex(fs[0], fs[1]); back = complex(fs[2], fs[3])
         _cov["round_trips"] = _cov.get("round_trips", 0) + 1
-        if not (math.isfinite(back.real) and math.isfinite(back.imag)) or abs(back - z) > 1e-9 * max(1, abs(z)):
+        if not _finite(back) or not (abs(back - z) <= 1e-9 * max(1, abs(z))):
             return "%s(%s(z)) = %r, not z = %r  (inverse value %r)" % (m["f"], m["finv"], back, z, w)
         return None
     if k == "pow":
         z = tuple(m["z"]); w = tuple(m["w"])
         p, e, pf, lg = complex(fs[0], fs[1]), complex(fs[2], fs[3]), complex(fs[4], fs[5]), complex(fs[6], fs[7])
         _cov["pow_cases"] = _cov.get("pow_cases", 0) + 1
-        if not (math.isfinite(p.real) and math.isfinite(p.imag)): return "pow(%r, %r) = %r" % (z, w, p)
-        if abs(p - e) > 1e-9 * max(1, abs(p)): return "z^w = %r but exp(w ln z) = %r at z=%r w=%r" % (p, e, z, w)
+        if not _finite(p): return "pow(%r, %r) = %r" % (z, w, p)
+        if not (abs(p - e) <= 1e-9 * max(1, abs(p))): return "z^w = %r but exp(w ln z) = %r at z=%r w=%r" % (p, e, z, w)
         if not on_cut("pow", z):
             zz, ww = mp.mpc(*z), mp.mpc(*w)
             if not _close(p, mp.exp(ww * mp.log(zz))): return "pow(%r, %r) = %r, principal power is %s" % (z, w, p, mp.nstr(mp.exp(ww * mp.log(zz)), 17))
@@ -310,7 +331,7 @@ def oracle(case, items):
         return None
     if k == "polarid":
         z = complex(*m["z"]); p = complex(fs[0], fs[1])
-        if abs(p - z) > 1e-9 * max(1, abs(z)): return "polar(|z|, arg z) = %r, not z = %r" % (p, z)
+        if not _finite(p) or not (abs(p - z) <= 1e-9 * max(1, abs(z))): return "polar(|z|, arg z) = %r, not z = %r" % (p, z)
         return None
     if k == "single":
         name = m["function"]
@@ -334,7 +355,7 @@ def oracle(case, items):
         return None
     if k == "polarinv":
         r, t = m["r"], m["t"]
-        if abs(fs[0] - r) > 1e-9 * max(1, r) or abs(fs[1] - t) > 1e-9: return "polar(%r, %r) has modulus %r, argument %r" % (r, t, fs[0], fs[1])
+        if not (abs(fs[0] - r) <= 1e-9 * max(1, r)) or not (abs(fs[1] - t) <= 1e-9): return "polar(%r, %r) has modulus %r, argument %r" % (r, t, fs[0], fs[1])
         return None
     return None
 
